@@ -62,7 +62,8 @@ def run_threads(params, ch):
         s.dev._local_id = params['start']
         sc = Scheduler(ch, max_steps=20000, trace_codes=codes(), opcodes=params.get('opcodes', False))
         io = s.dev._io_manager
-        sc.locks = [io._transport_lock, io._store_lock, s.dev._local_id_lock]
+        from ..harness import find_locks
+        sc.locks = list(find_locks(s.dev, io).values())
         s.env.sched = sc
         for i in range(n):
             sc.spawn(lambda i=i: s.op(('gen-start', 'hold%d' % i, {'decode': False})), name='open%d' % i)
@@ -100,7 +101,8 @@ def run_failed_overlap(params, ch):
         s.dev._local_id = params['start']
         sc = Scheduler(ch, max_steps=20000, trace_codes=codes())
         io = s.dev._io_manager
-        sc.locks = [io._transport_lock, io._store_lock, s.dev._local_id_lock]
+        from ..harness import find_locks
+        sc.locks = list(find_locks(s.dev, io).values())
         s.env.sched = sc
         sc.spawn(lambda: s.op(('shell', 'reject', {'decode': False, 'transport_timeout_s': 0.5, 'read_timeout_s': 0.5})), name='refused')
         sc.spawn(lambda: s.op(('gen-start', 'hold0', {'decode': False})), name='open0')
